@@ -361,7 +361,7 @@ def main(tier, seed):
     out.merge(out3)
     vs, nsig = runner.violations_json(sp, out)
     cov = runner.coverage_from(out, stats, sp, (
-        "all %d states of the 57-letter document alphabet to depth %d x every ordered sequence of exporter calls "
+        "all %d states of the 65-letter document alphabet to depth %d x every ordered sequence of exporter calls "
         "(15 exporters; sequence length 1 on the deepest level, longer on shallower ones); distinct = (state, "
         "sequence); non-trivial = every call left content, order and namespaces unchanged and the last export was "
         "compared with a twin document" % (len(hists), depth)), extra={"exporters": [e[0] for e in EXPORTERS]})
